@@ -355,4 +355,4 @@ def run(tier, seed, only=None, nproc=None):
                      "pairwise_kernels is an uninterpreted function of (metric, params, x_i, t_j), symmetric in its two points",
                      "check_array(dtype=narrower float) = uninterpreted rounding; otherwise identity; exact reals",
                      "differentiability ties (ReLU pre-activation exactly 0, equal logits) excluded from the arg-max decisions"],
-        bounds={"tier": tier, "rows": "m<=2 (3 thorough): every ordered selection of rows", "jobs": [j["name"] for j in js]})
+        bounds={"tier": tier, "rows": "m<=2 (3 thorough): every ordered selection of rows; 70 (300) rows drawn from 2 symbolic rows with 7 structured selections; batch_size hyper-parameter 2 / 16", "jobs": [j["name"] for j in js]})
